@@ -9,6 +9,7 @@
 extern "C" {
 #include "qlibc.h"
 }
+#include "common/via_members.hpp"   // after the prototypes: container calls go through the member pointers in half of the cases
 using namespace vf;
 const char *vf_harness_name = "listtbl";
 
